@@ -7,7 +7,7 @@
    relabellings (size-n1 subsets of the pool taken as the first sample) whose 2U is <= w. *)
 From Coq Require Import List ZArith QArith Permutation.
 From MM Require Import Base.Num Base.GEComb Base.GESort Spec.Ucount Model.GEChoose Model.Udist Model.Utest
-  Proofs.Utest Proofs.UtestP Proofs.UtestLaws Proofs.UtestSym Proofs.UtestSymLaws Check.GEMw Proofs.CheckMw.
+  Proofs.Utest Proofs.UtestP Proofs.UtestLaws Proofs.UtestSym Proofs.UtestSymLaws Proofs.UtestTies Check.GEMw Proofs.CheckMw.
 Import ListNotations.
 Local Open Scope Z_scope.
 
@@ -136,6 +136,13 @@ Theorem C01_exact_selected_iff : forall {A} (cmp : A -> A -> comparison), total_
    ~ (Z.of_nat n1 <= (if ms_ties s then TL else EL) /\ Z.of_nat n2 <= (if ms_ties s then TL else EL))).
 Proof. intros A cmp (Hr & Ha & Ht). exact (mw_exact_selected_iff cmp Hr Ha Ht). Qed.
 Print Assumptions C01_exact_selected_iff.
+(* ... and at the level of the data: hasTies is false exactly when no two pooled values (at different positions of
+   x1 ++ x2) compare equal — "all pooled values are distinct" in the statement's words *)
+Theorem C01_ties_iff_duplicate : forall {A} (cmp : A -> A -> comparison), total_preorder cmp ->
+  forall x1 x2 : list A,
+  ms_ties (mw_stat cmp x1 x2) = false <-> ForallOrdPairs (fun a b => cmp a b <> Eq) (x1 ++ x2).
+Proof. intros A cmp (Hr & Ha & Ht). exact (mw_ties_iff_duplicate cmp Hr Ha Ht). Qed.
+Print Assumptions C01_ties_iff_duplicate.
 (* the inputs the statement excludes: an empty sample <-> ErrSampleSize, all pooled values equal <-> ErrSamplesEqual *)
 Theorem C01_error_cases : forall {A} (cmp : A -> A -> comparison), total_preorder cmp ->
   forall cdf EL TL (x1 x2 : list A) alt,
